@@ -31,6 +31,7 @@ META = {
 }
 META["explanation"] += ' Also COPY (copy / pickle hooks of IntervalStorage keep its state) and DEP-C14 WIRING.'
 META["explanation"] += ' Round 5: DEP-C06 KEYS / VALUE / MERGE (empty selection at the end of a chain), DEP-C14 DISPATCH, accumulators initialised by a loop. HAZARD: constructs that do not mean what they look like, met in the analysed code (defaults evaluated once, class-level containers changed through self, dict.fromkeys with a shared mutable value, late-binding lambdas, truth value of objects that define __len__) are reported by every check.'
+META["explanation"] += ' Round 6: DEP-C14 INPUT; losses kept in a container filled during the walk are not decided.'
 MIN_INSTANCES = {"BASE": 2, "TELESCOPE": 4, "AVERAGE": 2, "SCHEDULE": 5, "WINDOW": 2}
 
 
